@@ -867,4 +867,314 @@ theorem fresh_run (cfg : Cfg) (hgd : cfg.guarded = true) : ∀ (as : List Act) (
       simp [hst] at h
       exact ih s1 s' (fresh_step cfg hgd hf (hint a (by simp)) hst) (fun b hb => hint b (by simp [hb])) h
 
+/-! ## the counter at zero -/
+
+theorem dead_of_wg_zero {s : St} (hi : Inv s) (h0 : s.wg = 0) :
+    ∀ (i : Nat) (g : Gen), s.gens[i]? = some g →
+      g.watcher = .done ∧ g.loop = false ∧ g.workers = 0 ∧ g.jobs = 0 := by
+  intro i g hg
+  have hl : liveL s.gens = 0 := by have := hi.wg_live; simp only [live] at this; omega
+  have := liveL_eq_zero s.gens hl g (List.mem_iff_getElem?.mpr ⟨i, hg⟩)
+  simp only [Gen.live] at this
+  refine ⟨?_, ?_, by omega, by omega⟩
+  · cases hw : g.watcher <;> simp [hw] at this ⊢
+  · cases hlp : g.loop <;> simp [hlp] at this ⊢
+
+theorem no_internal_of_wg_zero (cfg : Cfg) {s : St} (hi : Inv s) (h0 : s.wg = 0) (a : Act)
+    (ha : a.isInternal = true) : step cfg s a = none := by
+  have hat := dead_of_wg_zero hi h0
+  cases a <;> simp only [Act.isInternal] at ha <;> first | (cases ha; done) | skip
+  all_goals
+    simp only [step]
+    split
+    · rename_i g hg
+      obtain ⟨h1, h2, h3, h4⟩ := hat _ g hg
+      simp [h1, h2, h3, h4]
+    · rfl
+
+theorem startBody_len_wg (cfg : Cfg) (s : St) :
+    ((startBody cfg s).gens.length = s.gens.length ∧ (startBody cfg s).wg = s.wg) ∨
+    (startBody cfg s).gens.length = s.gens.length + 1 := by
+  by_cases hcnd : (cfg.prestop && s.started && curCancelled s) = true
+  · right
+    unfold startBody; rw [hcnd]
+    simp [stopBody_started, stopBody_length]
+  · have hc' : (cfg.prestop && s.started && curCancelled s) = false := by simpa using hcnd
+    have e : startBody cfg s = if s.started = true then s else
+        { started := true, gens := s.gens ++ [newGen cfg], wg := s.wg + 2 + cfg.workers } := by
+      unfold startBody; rw [hc']; rfl
+    by_cases hst : s.started = true
+    · left; rw [e, if_pos hst]; exact ⟨rfl, rfl⟩
+    · right; rw [e, if_neg hst]; simp
+
+theorem step_length_mono (cfg : Cfg) {s s' : St} {a : Act} (h : step cfg s a = some s') :
+    s.gens.length ≤ s'.gens.length := by
+  cases a <;> simp only [step] at h
+  case start => cases h; rcases startBody_len_wg cfg s with h | h <;> omega
+  case stop => cases h; rw [stopBody_length]; exact Nat.le_refl _
+  case watcherStop i =>
+    split at h
+    · split at h <;> simp at h
+      subst h
+      rw [finishWatcher_length]; split <;> simp [stopBody_length]
+    · cases h
+  all_goals
+    split at h
+    · first
+        | (split at h <;> simp at h; subst h; simp)
+        | (simp at h; subst h; simp)
+    · cases h
+
+/-- the counter leaves zero only through a `Start` that takes effect -/
+theorem fresh_only_by_start (cfg : Cfg) {s s' : St} {a : Act} (hi : Inv s) (h : step cfg s a = some s')
+    (h0 : s.wg = 0) (h1 : s'.wg ≠ 0) : s.gens.length < s'.gens.length := by
+  by_cases ha : a.isInternal = true
+  · rw [no_internal_of_wg_zero cfg hi h0 a ha] at h; cases h
+  · cases a <;> simp only [Act.isInternal] at ha <;> simp only [step] at h
+    case start =>
+      cases h
+      rcases startBody_len_wg cfg s with ⟨_, hw⟩ | hl
+      · rw [hw] at h1; exact absurd h0 h1
+      · omega
+    case stop => cases h; rw [stopBody_wg] at h1; exact absurd h0 h1
+    case cancel i =>
+      split at h <;> simp at h
+      subst h; exact absurd h0 h1
+    all_goals exact absurd trivial ha
+
+/-! ## waiters -/
+
+theorem wrun_sched (cfg : Cfg) (old : Bool) : ∀ (as : List WAct) (w w' : WSt),
+    wrun cfg old w as = some w' → run cfg w.sched (schedActs as) = some w'.sched := by
+  intro as
+  induction as with
+  | nil => intro w w' h; simp [wrun] at h; subst h; rfl
+  | cons a as ih =>
+    intro w w' h
+    simp only [wrun] at h
+    cases hst : wstep cfg old w a with
+    | none => simp [hst] at h
+    | some w1 =>
+      simp [hst] at h
+      have := ih w1 w' h
+      cases a with
+      | sched x =>
+        simp only [wstep] at hst
+        cases hx : step cfg w.sched x with
+        | none => simp [hx] at hst
+        | some s1 =>
+          simp [hx] at hst
+          subst hst
+          simp only [schedActs, run, hx, Option.bind_some]
+          exact this
+      | waitCall => simp only [wstep] at hst; cases hst; exact this
+      | waitWake k =>
+        simp only [wstep] at hst
+        split at hst
+        · split at hst <;> simp at hst
+          subst hst; exact this
+        · cases hst
+      | waitReturn k =>
+        simp only [wstep] at hst
+        split at hst
+        · cases hst; exact this
+        · cases hst
+      | waitExpire k =>
+        simp only [wstep] at hst
+        split at hst
+        · split at hst <;> cases hst <;> exact this
+        · cases hst
+
+theorem wreach_sched (cfg : Cfg) (old : Bool) (w : WSt) (h : WReach cfg old w) : Reach cfg w.sched := by
+  obtain ⟨as, h⟩ := h
+  exact ⟨schedActs as, wrun_sched cfg old as winit w h⟩
+
+/-- what is known about every blocked caller -/
+structure WInv (w : WSt) : Prop where
+  sched : Inv w.sched
+  blocked : ∀ (k e g0 : Nat), w.waiters[k]? = some (.blocked e g0) →
+    e ≤ w.epoch ∧ g0 ≤ w.sched.gens.length ∧ (w.sched.gens.length = g0 → w.epoch = e)
+
+theorem winv_init : WInv winit := ⟨inv_init, by simp [winit]⟩
+
+theorem waiters_set_blocked {l : List WaitPc} {k j e g0 : Nat} {x : WaitPc}
+    (hx : ∀ e g0, x ≠ .blocked e g0) (h : (l.set k x)[j]? = some (.blocked e g0)) :
+    l[j]? = some (.blocked e g0) := by
+  rw [List.getElem?_set] at h
+  by_cases hkj : k = j
+  · subst hkj
+    simp only [if_true] at h
+    split at h
+    · exact absurd (Option.some.inj h) (hx e g0)
+    · cases h
+  · simpa [hkj] using h
+
+theorem winv_step (cfg : Cfg) (old : Bool) {w w' : WSt} {a : WAct} (hi : WInv w)
+    (h : wstep cfg old w a = some w') : WInv w' := by
+  cases a <;> simp only [wstep] at h
+  case sched x =>
+    cases hx : step cfg w.sched x with
+    | none => simp [hx] at h
+    | some s1 =>
+      simp [hx] at h
+      subst h
+      refine ⟨inv_step cfg hi.sched hx, ?_⟩
+      intro k e g0 hk
+      obtain ⟨h1, h2, h3⟩ := hi.blocked k e g0 hk
+      have hmono := step_length_mono cfg hx
+      refine ⟨by simp only; split <;> omega, by simp only; omega, ?_⟩
+      intro hlen
+      simp only at hlen
+      have hl : w.sched.gens.length = g0 := by omega
+      have hnf : ¬ (w.sched.wg = 0 ∧ ¬ s1.wg = 0) := by
+        intro hf
+        have := fresh_only_by_start cfg hi.sched hx hf.1 hf.2
+        omega
+      rw [if_neg hnf]
+      exact h3 hl
+  case waitCall =>
+    cases h
+    refine ⟨hi.sched, ?_⟩
+    intro k e g0 hk
+    simp only at hk
+    by_cases hkl : k < w.waiters.length
+    · rw [List.getElem?_append_left hkl] at hk
+      exact hi.blocked k e g0 hk
+    · rw [List.getElem?_append_right (by omega)] at hk
+      have hk0 : k - w.waiters.length = 0 := by
+        rcases Nat.eq_zero_or_pos (k - w.waiters.length) with h | h
+        · exact h
+        · rw [List.getElem?_eq_none (by simp; omega)] at hk; cases hk
+      rw [hk0] at hk
+      simp only [List.getElem?_cons_zero, Option.some.injEq] at hk
+      split at hk
+      · cases hk
+      · cases hk
+        exact ⟨Nat.le_refl _, Nat.le_refl _, fun _ => rfl⟩
+  case waitWake k =>
+    split at h
+    · split at h <;> simp at h
+      subst h
+      exact ⟨hi.sched, fun j e g0 hj => hi.blocked j e g0 (waiters_set_blocked (by intro _ _ hh; cases hh) hj)⟩
+    · cases h
+  case waitReturn k =>
+    split at h
+    · cases h
+      exact ⟨hi.sched, fun j e g0 hj => hi.blocked j e g0 (waiters_set_blocked (by intro _ _ hh; cases hh) hj)⟩
+    · cases h
+  case waitExpire k =>
+    split at h
+    · split at h
+      · cases h; exact hi
+      · cases h
+        exact ⟨hi.sched, fun j e g0 hj => hi.blocked j e g0 (waiters_set_blocked (by intro _ _ hh; cases hh) hj)⟩
+    · cases h
+
+theorem winv_run (cfg : Cfg) (old : Bool) : ∀ (as : List WAct) (w w' : WSt), WInv w →
+    wrun cfg old w as = some w' → WInv w' := by
+  intro as
+  induction as with
+  | nil => intro w w' hi h; simp [wrun] at h; subst h; exact hi
+  | cons a as ih =>
+    intro w w' hi h
+    simp only [wrun] at h
+    cases hst : wstep cfg old w a with
+    | none => simp [hst] at h
+    | some w1 =>
+      simp [hst] at h
+      exact ih w1 w' (winv_step cfg old hi hst) h
+
+theorem winv_reach (cfg : Cfg) (old : Bool) (w : WSt) (h : WReach cfg old w) : WInv w := by
+  obtain ⟨as, h⟩ := h
+  exact winv_run cfg old as winit w winv_init h
+
+/-- a closed `done` channel stays closed, whatever happens next (including further Starts) -/
+theorem chanClosed_step (cfg : Cfg) (old : Bool) {w w' : WSt} {a : WAct} (e : Nat)
+    (hc : chanClosed w e = true) (h : wstep cfg old w a = some w') : chanClosed w' e = true := by
+  cases a <;> simp only [wstep] at h
+  case sched x =>
+    cases hx : step cfg w.sched x with
+    | none => simp [hx] at h
+    | some s1 =>
+      simp [hx] at h
+      subst h
+      simp only [chanClosed, Bool.or_eq_true, decide_eq_true_eq, Bool.and_eq_true, beq_iff_eq] at hc ⊢
+      by_cases hf : (w.sched.wg = 0 ∧ ¬ s1.wg = 0)
+      · simp only [hf, not_false_eq_true, and_self, if_true]
+        rcases hc with hc | hc
+        · left; omega
+        · left; omega
+      · simp only [hf, if_false]
+        rcases hc with hc | ⟨hc1, hc2⟩
+        · left; exact hc
+        · right
+          refine ⟨hc1, ?_⟩
+          by_cases h0 : s1.wg = 0
+          · exact h0
+          · exact absurd ⟨hc2, h0⟩ hf
+  case waitCall => cases h; exact hc
+  case waitWake k =>
+    split at h
+    · split at h <;> simp at h
+      subst h; exact hc
+    · cases h
+  case waitReturn k =>
+    split at h
+    · cases h; exact hc
+    · cases h
+  case waitExpire k =>
+    split at h
+    · split at h <;> cases h <;> exact hc
+    · cases h
+
+theorem chanClosed_run (cfg : Cfg) (old : Bool) (e : Nat) : ∀ (as : List WAct) (w w' : WSt),
+    chanClosed w e = true → wrun cfg old w as = some w' → chanClosed w' e = true := by
+  intro as
+  induction as with
+  | nil => intro w w' hc h; simp [wrun] at h; subst h; exact hc
+  | cons a as ih =>
+    intro w w' hc h
+    simp only [wrun] at h
+    cases hst : wstep cfg old w a with
+    | none => simp [hst] at h
+    | some w1 =>
+      simp [hst] at h
+      exact ih w1 w' (chanClosed_step cfg old e hc hst) h
+
+theorem not_broken_step (cfg : Cfg) {w w' : WSt} {a : WAct} (hb : w.broken = false)
+    (h : wstep cfg false w a = some w') : w'.broken = false := by
+  cases a <;> simp only [wstep] at h
+  case sched x =>
+    cases hx : step cfg w.sched x with
+    | none => simp [hx] at h
+    | some s1 => simp [hx] at h; subst h; simp [hb]
+  case waitCall => cases h; exact hb
+  case waitWake k =>
+    split at h
+    · split at h <;> simp at h
+      subst h; exact hb
+    · cases h
+  case waitReturn k =>
+    split at h
+    · cases h; exact hb
+    · cases h
+  case waitExpire k =>
+    split at h
+    · simp at h; subst h; exact hb
+    · cases h
+
+theorem not_broken_run (cfg : Cfg) : ∀ (as : List WAct) (w w' : WSt), w.broken = false →
+    wrun cfg false w as = some w' → w'.broken = false := by
+  intro as
+  induction as with
+  | nil => intro w w' hb h; simp [wrun] at h; subst h; exact hb
+  | cons a as ih =>
+    intro w w' hb h
+    simp only [wrun] at h
+    cases hst : wstep cfg false w a with
+    | none => simp [hst] at h
+    | some w1 =>
+      simp [hst] at h
+      exact ih w1 w' (not_broken_step cfg hb hst) h
+
 end Lifecycle
